@@ -2,6 +2,7 @@
    Statements only. *)
 From Coq Require Import List NArith.
 From Baize Require Import C17.Model C17.Proofs.
+From Baize Require C18.Model C18.Proofs.
 Import ListNotations.
 Local Open Scope N_scope.
 
@@ -44,7 +45,14 @@ Theorem spec_meaning : forall (k : K) (v : V) (a : pairs),
   getlist k (a ++ [(k, v)]) = getlist k a ++ [v].
 Proof. exact spec_meaning_proof. Qed.
 
+(* A query mapping parsed from its own string form equals itself: parse_qsl inverts urlencode
+   (proved with the URL model, C18; keys and values over ASCII — the model has no UTF-8 decoder). *)
+Theorem query_roundtrip : forall ps : C18.Model.pairs,
+  forallb C18.Proofs.pair_ascii ps = true -> C18.Model.parse_qsl (C18.Model.urlencode ps) = ps.
+Proof. exact C18.Proofs.query_roundtrip_proof. Qed.
+
 Print Assumptions reachable_invariant.
 Print Assumptions ops_refine.
 Print Assumptions views_agree.
 Print Assumptions spec_meaning.
+Print Assumptions query_roundtrip.
